@@ -131,6 +131,27 @@ def h_pair(eng, u, v, w):
     q2.ito(v)
     eng.prove(And(Eq(q2.magnitude, r.magnitude), q2.units == r.units), "ito")
     eng.prove(Eq(q.magnitude, x), "source-untouched")
+    # every way of writing the target and of building the source means the same
+    want = r.magnitude
+    targets = {"Unit": ureg.Unit(v), "UnitsContainer": ureg.UnitsContainer({v: 1}), "Quantity": ureg.Quantity(7, v), "dict": {v: 1}, "expression": f"{v}**2/{v}"}
+    for tn, tv in targets.items():
+        eng.prove(Eq(q.to(tv).magnitude, want), f"target-as-{tn}")
+        if tn != "dict":
+            eng.prove(Eq(ureg.convert(x, u, tv), want), f"convert-target-as-{tn}")
+    sources = {
+        "string": lambda: ureg.Quantity(f"{eng.lit(x)} {u}"),
+        "call-registry": lambda: ureg(f"{eng.lit(x)} * {u}"),
+        "number*Unit": lambda: x * ureg.Unit(u),
+        "Unit*number": lambda: ureg.Unit(u) * x,
+        "number*attr": lambda: x * getattr(ureg, u),
+        "Quantity(Quantity)": lambda: ureg.Quantity(ureg.Quantity(x, u)),
+        "Quantity(number, Quantity-units)": lambda: ureg.Quantity(x, ureg.Quantity(1, u).units),
+        "from_tuple": lambda: ureg.Quantity.from_tuple((x, ((u, 1),))),
+        "parse_expression": lambda: ureg.parse_expression(f"{eng.lit(x)} {u}"),
+    }
+    for sn, mk in sources.items():
+        qs = mk()
+        eng.prove(Eq(qs.to(v).magnitude, want), f"source-as-{sn}")
 
 
 def h_compound_twice(eng, u, u2, v, v2, bound):
@@ -154,6 +175,20 @@ def h_compound_twice(eng, u, u2, v, v2, bound):
         eng.prove(Or(*[And(Eq(e, k), Eq(f, l), Eq(r, x * fu**k * fv**l)) for k in rng for l in rng]), f"compound-factor-round{rnd_}")
         back = ureg.convert(r, dst, src)
         eng.prove(Eq(back, x), f"compound-round-trip-round{rnd_}")
+        # the other memoised tables (root units, base units, dimensionality), same discipline
+        q = ureg.Quantity(x, src)
+        rr = q.to_root_units()
+        fu_r, fv_r = inf[u].num, inf[v].num
+        eng.prove(Or(*[And(Eq(e, k), Eq(f, l), Eq(rr.magnitude, x * fu_r**k * fv_r**l)) for k in rng for l in rng]), f"compound-root-factor-round{rnd_}")
+        rb = q.to_base_units().to_root_units()
+        eng.prove(Eq(rb.magnitude, rr.magnitude), f"compound-base-units-same-value-round{rnd_}")
+        dims = {}
+        for nm, ex in ((u, e), (v, f)):
+            for dk, dv in inf[nm].dims:
+                dims[dk] = dims.get(dk, 0) + dv * ex
+        got = dict(q.dimensionality)
+        eng.prove(And(*[Eq(got.get(dk, 0), dv) for dk, dv in dims.items()]) if dims else True, f"compound-dimensionality-round{rnd_}")
+        eng.prove(And(*[Or(dk in dims, Eq(dv, 0)) for dk, dv in got.items()]) if got else True, f"compound-dimensionality-no-extra-round{rnd_}")
 
 
 def h_spellings_after_lookups(eng, first, then):
